@@ -365,6 +365,9 @@ def check(ctx):
 
     def ival(e, st, frame):
         """value of an integer expression over the counter and locals that hold counter values, or None"""
+        if isinstance(e, ast.Call) and isinstance(e.func, ast.Name) and e.func.id in ('max', 'min') and len(e.args) >= 2 and not e.keywords:
+            vals = [ival(a_, st, frame) for a_ in e.args]          # a clamp: max(0, counter - 1)
+            return None if any(v is None for v in vals) else (max if e.func.id == 'max' else min)(vals)
         try:
             lin = N13.norm(e, {})
         except Exception:      # noqa: BLE001
